@@ -4,7 +4,7 @@
    Path.delpaths, PROVIDED every new value contains no allocated container.  The known findings D5 and D9 are
    exactly runs in which the update body returns a value that embeds the (allocated) container it was given. *)
 From Coq Require Import List ZArith NArith Bool Lia.
-From Verif Require Import c02.Path c02.PathProofs c02.HeapPath c02.HeapInv c02.HeapProofs c02.HeapSlice c02.HeapAbs
+From Verif Require Import c02.Path c02.PathProofs c02.HeapPath c02.HeapInv c02.HeapProofs c02.HeapSlice c02.HeapInner c02.HeapAbs
   c02.HeapSweep c02.HeapDelpaths.
 Import ListNotations.
 Open Scope nat_scope.
@@ -100,6 +100,36 @@ Proof.
       * apply andb_true_iff in E as [E1 E2].
         assert (Hk : Z.to_nat (clamp i (-1) (Z.of_nat len)) < length l) by lia.
         eapply IHok_path. apply (reps3_nth _ JNull HNull [] _ _ _ _ Hc Hk).
+      * apply (IHok_path h ps JNull HNull []). split; auto.
+    + apply orep_obj in Hr as (a & kvs & fps & -> & _). reflexivity.
+  - (* slice, then index: through the window *)
+    destruct j; try (destruct Hr as [-> _]; simpl; eauto; fail).
+    + destruct Hr as [-> ->]. cbn [getpath index2 h_getpath h_index2].
+      apply (IHok_path h ps JNull HNull []). split; auto.
+    + apply orep_arr in Hr as (a & off & len & cap & cells & fps & -> & Hn & Hl & Hc & _).
+      destruct (reps3_length _ _ _ _ Hc) as [L1 L2].
+      assert (Hlen : length l = len) by (rewrite L1, firstn_length, skipn_length; lia).
+      cbn [getpath index2 h_getpath h_index2]. unfold zlen at 1. rewrite Hlen.
+      destruct (slice_bounds s e (Z.of_nat len)) as [zs ze] eqn:SB.
+      destruct (slice_bounds_range _ _ _ _ _ (Nat2Z.is_nonneg _) SB) as [[B1 B2] B3].
+      rewrite (sub_nat l zs ze) by lia.
+      set (st := Z.to_nat zs). set (en := Z.to_nat ze).
+      assert (Hse : st <= en) by (unfold st, en; lia).
+      assert (Hen : en <= len) by (unfold en; lia).
+      set (jsW := firstn (en - st) (skipn st l)).
+      set (EW := firstn (en - st) (skipn st (firstn len (skipn off cells)))).
+      set (fpsW := firstn (en - st) (skipn st fps)).
+      assert (HrepW : reps3 (orep h ps) jsW EW fpsW) by (apply reps3_firstn; apply reps3_skipn; auto).
+      assert (HlW : length jsW = en - st) by (unfold jsW; rewrite firstn_length, skipn_length; lia).
+      unfold reslice. cbn [h_getpath h_index2]. unfold zlen. rewrite HlW.
+      assert (Hel : elems h (HArr a (if Nat.eqb (cap - st) 0 && Nat.eqb (en - st) 0 then off else off + st) (en - st) (cap - st)) = EW \/ en - st = 0).
+      { destruct (Nat.eqb (en - st) 0) eqn:E0. { right. apply Nat.eqb_eq. auto. }
+        left. rewrite andb_false_r. cbn [elems]. rewrite (cells_of_nth _ _ _ Hn). unfold EW. apply window_elems; lia. }
+      destruct ((0 <=? clamp i (-1) (Z.of_nat (en - st)))%Z && (clamp i (-1) (Z.of_nat (en - st)) <? Z.of_nat (en - st))%Z) eqn:E.
+      * apply andb_true_iff in E as [E1 E2]. apply Z.leb_le in E1. apply Z.ltb_lt in E2.
+        destruct Hel as [Hel|Hel]; [|lia]. rewrite Hel.
+        assert (Hk : Z.to_nat (clamp i (-1) (Z.of_nat (en - st))) < length jsW) by lia.
+        eapply IHok_path. apply (reps3_nth _ JNull HNull [] _ _ _ _ HrepW Hk).
       * apply (IHok_path h ps JNull HNull []). split; auto.
     + apply orep_obj in Hr as (a & kvs & fps & -> & _). reflexivity.
 Qed.
